@@ -3,7 +3,7 @@
    bad_model: indices where the model over the regenerated tables predicts something else (tie);
    bad_spec : indices where the real application contradicts the hand-written specification (violation). *)
 From QT Require Export C09.Model C09.SpecRun C09.Events.
-From QT Require Import Gen.C09Gen.
+From QT Require Import Gen.C09Gen C09.Stateful.
 Open Scope string_scope.
 Open Scope Z_scope.
 
@@ -47,3 +47,10 @@ Definition bad_routing (tmpls : list string) (sets : list (list string * list st
 
 Definition bad_events_model (cs : list evcase) : list nat :=
   mismatches (fun x : evcase => let '(s, c, o) := x in events_model_ok s c o) cs 0.
+
+Definition bad_auth_model (on : list string) (cs : list acase) : list nat :=
+  mismatches (fun x : acase => let '(t, m, p, v, a, tl, o) := x in
+                resp_agrees (handle gen_tables (flags_of on) t m (grant p v a tl) true) o) cs 0.
+
+Definition bad_hist_model (on : list string) (hs : list hcase) : list nat :=
+  mismatches (fun h : hcase => hist_model_ok gen_tables grant (flags_of on) pw_init (fst h) (snd h)) hs 0.
